@@ -74,6 +74,7 @@ def run(tier, seed):
     # first used inside a region and again after it, and block entries that fail before the region exists
     pending = aborted_enter_cases() + matrixcases.assertion_contexts(tier, ctxs=["g1", "g0", "g1g0", "lazy0", "if1", "g0+plain", "g1+plain"],
                                                                      bin_ctxs=["g0", "g0+plain", "g1+plain"])
+    if tier == "quick": pending = pending[:4] + pending[4:][seed % 2::2]      # half of the matrix per run (which half depends on the seed)
     return tracecheck.run(PID, tier, seed, PROFILE, oracle, n_quick=2 * len(pending) + 240, n_thorough=2 * len(pending) + 6000, variants=variants, post=post, mask=1 | 4 | 8,
                           casegen=matrixcases.with_pending(pending, PROFILE))
 
